@@ -100,6 +100,33 @@ def brace_tokens(source, node) -> TokenRange:
     return first_token, end_token
 
 
+def expand_parentheses(
+    source: SourceFile, token_range: TokenRange, brace_tokens: TokenRange
+) -> TokenRange:
+    """asttokens does not include the parentheses around an expression like
+    `(1)` into the tokens of the node.
+
+    The token range is expanded over these parentheses, which belong to
+    the element and not to the surrounding container.
+    """
+    atok = source.asttokens()
+    first_token, last_token = token_range
+    left_brace, right_brace = brace_tokens
+
+    while True:
+        prev_token = atok.prev_token(first_token)
+        next_token = atok.next_token(last_token)
+        if (
+            prev_token.string == "("
+            and next_token.string == ")"
+            and prev_token.index > left_brace.index
+            and next_token.index < right_brace.index
+        ):
+            first_token, last_token = prev_token, next_token
+        else:
+            return first_token, last_token
+
+
 def generic_sequence_update(
     source: SourceFile,
     parent: Union[ast.List, ast.Tuple, ast.Dict, ast.Call],
@@ -197,14 +224,16 @@ def apply_all(all_changes: List[Change], recorder: ChangeRecorder):
                 if isinstance(change, ListInsert)
             }
 
+            braces = brace_tokens(source, parent)
+
             def list_token_range(entry):
                 r = list(source.asttokens().get_tokens(entry))
-                return r[0], r[-1]
+                return expand_parentheses(source, (r[0], r[-1]), braces)
 
             generic_sequence_update(
                 source,
                 parent,
-                brace_tokens(source, parent),
+                braces,
                 [None if e in to_delete else list_token_range(e) for e in parent.elts],
                 to_insert,
                 recorder,
@@ -216,16 +245,19 @@ def apply_all(all_changes: List[Change], recorder: ChangeRecorder):
             }
             atok = source.asttokens()
 
-            def arg_token_range(node):
-                if isinstance(node.parent, ast.keyword):
-                    node = node.parent
-                r = list(atok.get_tokens(node))
-                return r[0], r[-1]
-
             braces_left = atok.next_token(list(atok.get_tokens(parent.func))[-1])
             assert braces_left.string == "("
             braces_right = list(atok.get_tokens(parent))[-1]
             assert braces_right.string == ")"
+
+            def arg_token_range(node):
+                r = list(atok.get_tokens(node))
+                first_token, last_token = expand_parentheses(
+                    source, (r[0], r[-1]), (braces_left, braces_right)
+                )
+                if isinstance(node.parent, ast.keyword):
+                    first_token = list(atok.get_tokens(node.parent))[0]
+                return first_token, last_token
 
             to_insert = DefaultDict(list)
 
@@ -266,16 +298,24 @@ def apply_all(all_changes: List[Change], recorder: ChangeRecorder):
                 if isinstance(change, DictInsert)
             }
 
+            braces = brace_tokens(source, parent)
+
             def dict_token_range(key, value):
+                key_tokens = list(source.asttokens().get_tokens(key))
+                value_tokens = list(source.asttokens().get_tokens(value))
                 return (
-                    list(source.asttokens().get_tokens(key))[0],
-                    list(source.asttokens().get_tokens(value))[-1],
+                    expand_parentheses(
+                        source, (key_tokens[0], key_tokens[-1]), braces
+                    )[0],
+                    expand_parentheses(
+                        source, (value_tokens[0], value_tokens[-1]), braces
+                    )[1],
                 )
 
             generic_sequence_update(
                 source,
                 parent,
-                brace_tokens(source, parent),
+                braces,
                 [
                     None if value in to_delete else dict_token_range(key, value)
                     for key, value in zip(parent.keys, parent.values)
